@@ -29,6 +29,7 @@ type Obligation struct {
 	Result   smt.Result
 	Expected string // "unsat" for proof goals, "sat" for cover / must-fail probes
 	Note     string
+	Batched  int // >0: discharged as one of this many frame obligations of the same program point
 	fs       *fnState
 	ni       *niInfo
 }
@@ -109,6 +110,7 @@ type fnState struct {
 	inlining  int // depth of inlined calls
 	inlineRet *SV // result captured from an inlined callee return
 	strLits   map[string]string
+	sitePos   token.Pos         // source position of the site clause being translated
 	quant     int               // >0 while translating the body of a quantifier
 	sentinels []string          // constants of leaf error sentinels seen so far
 	defs      map[string]string // terms behind the names introduced by define
@@ -1127,7 +1129,9 @@ func (f *fnState) siteAsserts(ins ssa.Instruction, where string) {
 		}
 		actx := f.specCtx(nil)
 		actx.locals = true
+		f.sitePos = ins.Pos()
 		t := f.specBool(a.Clause.E, actx)
+		f.sitePos = token.NoPos
 		if a.Assume {
 			f.note(fmt.Sprintf("assumed fact in %s after %q: %s", f.fn.Name(), a.Needle, a.Clause.Text))
 			f.assume(t)
